@@ -247,6 +247,7 @@ class Recorder:
         self.states = {}
         self.state_list = []
         self.meta = []
+        self.max_states = 40000  # distinct states whose observers are recorded (each costs ~25 observer calls and a TLC evaluation)
 
     def step(self, tid, prev, pre, o, res, post, how):
         self.steps.append({"tid": tid, "prev": prev, "pre": pre, "op": {k: o[k] for k in ("op", "p", "v", "items", "ou")},
@@ -258,7 +259,7 @@ class Recorder:
         c = canon(alpha(ns))
         if '"~' in c:
             return  # a marked name leaked into a dict value (through-dict deviation): observers are not compared there
-        if c not in self.states:
+        if c not in self.states and len(self.state_list) < self.max_states:
             self.states[c] = len(self.state_list)
             try:
                 ob = observe(ns, names)
@@ -274,8 +275,10 @@ def replay_model_states(rec, states, ops, rnd, tier):
         pairs, depth = st["state"], st["n"]
         # DFS-ish order so that parents are created before children
         pairs = sorted(pairs, key=lambda pc: (len(pc[0]), pc[0]))
-        full = depth <= (1 if tier == "quick" else 2)
-        chosen = ops if full else rnd.sample(ops, 12 if tier == "quick" else 40)
+        full = depth <= 1
+        if tier == "thorough" and depth >= 3 and si % 7:
+            continue  # thorough: every 7th of the depth-3 states (the model checker has visited all of them)
+        chosen = ops if full else rnd.sample(ops, 12 if tier == "quick" else (60 if depth == 2 else 15))
         for oi, o in enumerate(chosen):
             ren = {"items": CLASH[(si + oi) % len(CLASH)]}
             inv = {v: k for k, v in ren.items()}
@@ -435,7 +438,8 @@ def main(argv):
                 s2 = dict(s)
                 s2["prev"] = s["prev"] - base if s["prev"] > base else 0
                 loc.append(s2)
-            sts = good_states if c == 0 else []
+            per = (len(good_states) + nchunks - 1) // nchunks
+            sts = good_states[c * per : (c + 1) * per]
             f = tmp / f"trace{c}.json"
             f.write_text(json.dumps({"steps": loc, "states": sts}))
             tr = tlc.run("Trace_Namespace", "Trace_Namespace", workers=16, env={"TRACE_FILE": str(f)}, timeout=3000, heap="12g")
@@ -444,7 +448,7 @@ def main(argv):
                 machinery_failure(PID, f"trace validation run failed (distinct={tr.distinct}, expected {len(loc) + len(sts)}):\n" + tr.stdout[-3000:])
             for p in tr.printed:
                 if isinstance(p, list) and p and p[0] == "R":
-                    rejects.append((p[1], p[2] + (base if p[1] == "step" else 0), p[3]))
+                    rejects.append((p[1], p[2] + (base if p[1] == "step" else c * per), p[3]))
             f.unlink()
     finally:
         common.rm(tmp)
